@@ -1156,12 +1156,14 @@ class Tr:
         names = [a.arg for a in self.fn.args.args]
         if (t.env or t.self_name == 'self') and names[:1] == ['self']:
             names = names[1:]
-        if [n_ for n_ in names if n_ not in t.consts] != [p for p, _, _ in t.params]:
-            raise Unsupported(f'signature changed: {names}')
+        sig_changed = [n_ for n_ in names if n_ not in t.consts] != [p for p, _, _ in t.params]
         if t.env:
             ps.insert(0, f'(env : {t.env})')
         monad = f'ExceptT String (StateM ({t.state_type}))' if t.state_type else 'Py.M'
         head = f'def {t.lean} {t.tparams} {" ".join(ps)} : {monad} ({t.ret}) := do'
+        self.head = head
+        if sig_changed:
+            raise Unsupported(f'signature changed: {names}')
         lines = [head]
         for p, _, _ in t.params:
             if p in self.mutable and not (self.kinds.get(p) or '').startswith('opt:'):
@@ -1222,17 +1224,25 @@ def generate():
             chunks.append(f'-- {t.qual}: NOT TRANSLATED: {report[t.lean]}\n')
             continue
         fn = FUNCS[t.qual]
+        tr = None
         try:
             if t.region:
                 fn = region_function(t, fn)
-            code = Tr(t, fn).function()
+            tr = Tr(t, fn)
+            code = tr.function()
             src = ast.get_source_segment(open(os.path.join(REPO, t.file)).read(), getattr(fn, '_src_node', fn)) or ''
             src = '\n'.join(l for l in src.split('\n'))
             chunks.append(f'/- {t.file}:{fn.lineno}\n{src.replace("/-", "/ -").replace("-/", "- /")}\n-/\n{code}\n')
             report[t.lean] = 'ok'
         except Unsupported as e:
             report[t.lean] = str(e)
-            chunks.append(f'-- {t.qual}: NOT TRANSLATED: {e}\n')
+            msg = str(e).replace('"', "'").replace('\\', '/')[:150]
+            if tr is not None and getattr(tr, 'head', None):
+                # a stub with the same Lean signature, so that everything that merely *mentions* the function (the driver,
+                # other translated functions) still compiles; every proof about it fails, and running it raises
+                chunks.append(f'-- {t.qual}: NOT TRANSLATED: {e}\n{tr.head}\n  throw "NOT TRANSLATED: {msg}"\n')
+            else:
+                chunks.append(f'-- {t.qual}: NOT TRANSLATED: {e}\n')
     chunks.append('end Kingdon.Src\n')
     return '\n'.join(chunks), report
 
